@@ -130,6 +130,30 @@ class Resolver:
         self.partial_nodes: dict[int, ast.Call] = {}
         self.lambda_nodes: dict[int, ast.Lambda] = {}
         self.unresolved: list[str] = []
+        self.facts: frozenset = frozenset()   # (atom text, bool) guard facts assumed while resolving (see assuming())
+
+    def assuming(self, facts):
+        """context manager: resolve conditional expressions under the given guard facts"""
+        res = self
+
+        class _Ctx:
+            def __enter__(self_inner):
+                self_inner.old = res.facts
+                res.facts = frozenset(facts)
+
+            def __exit__(self_inner, *a):
+                res.facts = self_inner.old
+        return _Ctx()
+
+    def _stable_atom(self, test: ast.AST, f: Func | None) -> bool:
+        """every variable of the test is bound exactly once in f (so the guard and the definition see the same value)"""
+        if f is None:
+            return False
+        sc = self.scope(f)
+        for n in ast.walk(test):
+            if isinstance(n, ast.Name) and len(sc.bind.get(n.id, [])) > 1:
+                return False
+        return True
 
     def scope(self, f: Func) -> Scope:
         s = self._scopes.get(f.qualname)
@@ -246,6 +270,14 @@ class Resolver:
             self.lambda_nodes[id(e)] = e
             return {T("lambda", f"{u.name}:{e.lineno}", node_id=id(e))}
         if isinstance(e, ast.IfExp):
+            if self.facts:
+                from .dataflow import atom_of
+                a, pol = atom_of(e.test)
+                if self._stable_atom(e.test, f):
+                    if (a, True) in self.facts:
+                        return self.resolve(e.body if pol else e.orelse, f, u, depth + 1, _seen)
+                    if (a, False) in self.facts:
+                        return self.resolve(e.orelse if pol else e.body, f, u, depth + 1, _seen)
             return self.resolve(e.body, f, u, depth + 1, _seen) | self.resolve(e.orelse, f, u, depth + 1, _seen)
         if isinstance(e, ast.BoolOp):
             out = set()
